@@ -591,9 +591,10 @@ func (dr *diskRun) judgeLoad(lr *loadResult, what string) {
 				cause = "extra-items"
 			}
 			if dr.collision != "" {
-				// the damaged shard has the same XOR-of-CRC32 checksum as the original one
-				cause = "xor-of-crc32-checksum-collision"
-				d = dr.collision + "; " + d
+				// every file the loader read has exactly the checksum recorded for it
+				// although the content differs: the XOR-of-CRC32 checksum cannot tell them apart
+				env.Violate("C11", "silent-wrong/xor-of-crc32-checksum-collision", "%s: LoadFromDisk returned nil error and a different snapshot: %s; %s", what, dr.collision, d)
+				return
 			}
 			env.Violate("C11", "silent-wrong/"+cause+"/"+damageClass(what), "%s: LoadFromDisk returned nil error and a different snapshot: %s", what, d)
 		} else if c := lr.snap.Count(); int(c) != len(dr.content) {
@@ -663,18 +664,7 @@ func (dr *diskRun) checkDamage() {
 		}
 		lr := dr.load(work, "dmg")
 		nv := len(env.Res.Violations)
-		dr.collision = ""
-		for _, d := range ds {
-			if isDataShard(d.File) || isDeltaShard(d.File) {
-				ob, _ := os.ReadFile(filepath.Join(dr.dir, d.File))
-				nb, _ := os.ReadFile(filepath.Join(work, d.File))
-				oi, osum, _ := parseShard(ob, 1)
-				ni, nsum, nerr := parseShardPrefix(nb, 1)
-				if nerr == nil && osum == nsum && len(oi) != len(ni) {
-					dr.collision = fmt.Sprintf("%s: %d items with checksum %d became %d items with the same checksum", d.File, len(oi), osum, len(ni))
-				}
-			}
-		}
+		dr.collision = checksumsCannotTell(work)
 		dr.judgeLoad(lr, what)
 		n++
 		env.FaultFired("damage_" + ds[0].Kind)
@@ -1213,4 +1203,53 @@ func (dr *diskRun) checkVersion0() {
 	env.Probe("version0_restores")
 	lr.ne.allocShared = true
 	lr.discard(env)
+}
+
+// checksumsCannotTell looks at a (damaged) backup directory the way the loader
+// does, with the independent parser: if every data and delta file named by
+// the manifests has exactly the checksum recorded for it, the checksums give
+// the loader no way to notice the damage. Returns a description, or "".
+func checksumsCannotTell(dir string) string {
+	version := 0
+	if b, err := os.ReadFile(filepath.Join(dir, "nitro.json")); err == nil {
+		var m map[string]int
+		if json.Unmarshal(b, &m) != nil {
+			return ""
+		}
+		version = m["version"]
+	}
+	desc := ""
+	for _, sub := range []string{"data", "delta"} {
+		var files []string
+		var sums []uint32
+		b, err := os.ReadFile(filepath.Join(dir, sub, "files.json"))
+		if err != nil {
+			if sub == "data" {
+				return ""
+			}
+			continue
+		}
+		if json.Unmarshal(b, &files) != nil {
+			return ""
+		}
+		cb, err := os.ReadFile(filepath.Join(dir, sub, "checksums.json"))
+		if err != nil || json.Unmarshal(cb, &sums) != nil || len(sums) != len(files) {
+			return ""
+		}
+		for i, f := range files {
+			fb, err := os.ReadFile(filepath.Join(dir, sub, f))
+			if err != nil {
+				return ""
+			}
+			items, sum, perr := parseShardPrefix(fb, version)
+			if perr != nil || sum != sums[i] {
+				return ""
+			}
+			desc += fmt.Sprintf("%s/%s: %d items, checksum %d as recorded; ", sub, f, len(items), sum)
+		}
+	}
+	if len(desc) > 300 {
+		desc = desc[:300] + "..."
+	}
+	return "all files read by the loader match their recorded XOR-of-CRC32 checksums (" + desc + ")"
 }
